@@ -83,8 +83,27 @@ def main():
 
     # ---- 3: correspondence -----------------------------------------------------------------------------------
     stats = {}
+    tc = time.time()
     res = correspond(H, tier, rng, driver_ok, stats)
     disagreements, violations = res["disagreements"], res["violations"]
+    # advisory fingerprints (DESIGN 1.2): source of an anchor function differs from the recorded one and the quick scope saw
+    # nothing -> deepen the correspondence with a seeded sample of the thorough scope, within a time budget
+    changed = lib.changed_functions(prop)
+    if changed:
+        notes.append("anchor functions differing from checks/fingerprints.json: " + ", ".join(changed[:12]))
+    if changed and tier == "quick" and not disagreements and not violations:
+        budget = float(os.environ.get("VERIF_ESCALATE_S", "150"))
+        rate = max(stats.get("evaluations", 0), 1) / max(time.time() - tc, 1.0)
+        limit = int(rate * budget)
+        lib.log(f"[{prop}] {len(changed)} anchor function(s) changed: deepening the correspondence (≤ {limit} thorough-scope cases)")
+        stats2 = {}
+        res2 = correspond(H, "thorough", random.Random(seed + 7), driver_ok, stats2, limit=limit, modes_of="quick")
+        disagreements += res2["disagreements"]
+        violations += res2["violations"]
+        stats["evaluations"] = stats.get("evaluations", 0) + stats2.get("evaluations", 0)
+        stats["compared"] = stats.get("compared", 0) + stats2.get("compared", 0)
+        stats["distinct_nontrivial"] = stats.get("distinct_nontrivial", 0) + stats2.get("distinct_nontrivial", 0)
+        notes.append(f"deepened: {stats2.get('evaluations', 0)} additional evaluations sampled from the thorough scope")
 
     # ---- 4/5: verdict ----------------------------------------------------------------------------------------
     findings = lib.load_findings(prop)
@@ -177,11 +196,14 @@ def main():
     return rc
 
 
-def correspond(H, tier, rng, driver_ok, stats, spec_only=False):
+def correspond(H, tier, rng, driver_ok, stats, spec_only=False, limit=None, modes_of=None):
     """run the cases of `tier` on the implementation (each mode), on the model, and on the property oracle"""
     cases = H.gen_cases(tier, rng)
+    if limit is not None and len(cases) > limit:
+        keep = sorted(rng.sample(range(len(cases)), max(limit, 1)))
+        cases = [cases[i] for i in keep]
     modes = getattr(H, "MODES", {"quick": ["jit"], "thorough": ["jit", "nojit"], "search": ["jit", "nojit"]})
-    modes = modes.get(tier, ["jit"])
+    modes = modes.get(modes_of or tier, ["jit"])
     to_model = getattr(H, "to_model", lambda c: c)
     model_out = None
     if driver_ok and not spec_only:
